@@ -1,7 +1,565 @@
-//! C20 — harness not built yet.
+//! C20 — out-of-range plugin parameters are rejected when the dictionary is loaded.
+//!
+//! One case = one system dictionary with an nl x nr connection matrix (compiled by DictBuilder from text, cell (l, r) holding
+//! `init_cost l r`) + one configuration (OOV providers, InhibitConnectionPlugin instances).  The implementation is run through
+//! JapaneseDictionary::from_cfg_storage; recorded: Ok/Err/Panic, the node templates each OOV provider hands out on a probe
+//! text, the matrix cells read back from the loaded grammar, whether analysing the probe text panics.
 use crate::common::*;
+use serde_json::{json, Value};
+use std::collections::HashMap;
+use std::path::{Path, PathBuf};
+use sudachi::analysis::created::CreatedWords;
+use sudachi::analysis::node::{LatticeNode, RightId};
+use sudachi::analysis::stateful_tokenizer::StatefulTokenizer;
+use sudachi::analysis::stateless_tokenizer::DictionaryAccess;
+use sudachi::analysis::Mode;
+use sudachi::config::ConfigBuilder;
+use sudachi::dic::build::DictBuilder;
+use sudachi::dic::dictionary::JapaneseDictionary;
+use sudachi::dic::storage::{Storage, SudachiDicData};
+use sudachi::input_text::InputBuffer;
 
-pub fn run(_args: &Args) {
-    eprintln!("no harness for C20 yet");
-    std::process::exit(2);
+/// POS of the three words of the system lexicon, in id order (keys 0, 1, 2 of the model)
+const SYS_POS: [&str; 3] = ["名詞,固有名詞,地名,一般,*,*", "助詞,格助詞,*,*,*,*", "動詞,一般,*,*,*,*"];
+const PROBE: &str = "abc京都に行くア12 x。";
+const CATS: [&str; 6] = ["DEFAULT", "ALPHA", "KANJI", "NUMERIC", "KATAKANA", "HIRAGANA"];
+
+fn init_cost(l: i64, r: i64) -> i64 {
+    (l * 7 + r * 13).rem_euclid(1000) - 500
+}
+
+#[derive(Clone, Debug)]
+struct Pos {
+    arity_ok: bool,
+    key: u64,
+}
+impl Pos {
+    fn strings(&self) -> Vec<String> {
+        let mut v: Vec<String> = if (self.key as usize) < SYS_POS.len() {
+            SYS_POS[self.key as usize].split(',').map(|s| s.to_string()).collect()
+        } else {
+            vec!["名詞".into(), format!("利用者{}", self.key), "*".into(), "*".into(), "*".into(), "*".into()]
+        };
+        if !self.arity_ok {
+            v.pop();
+        }
+        v
+    }
+    fn coq(&self) -> String {
+        format!("({}, {})", cbool(self.arity_ok), cn(self.key))
+    }
+    fn json(&self) -> Value {
+        json!([self.arity_ok, self.key])
+    }
+    fn from_json(v: &Value) -> Pos {
+        Pos { arity_ok: v[0].as_bool().unwrap(), key: v[1].as_u64().unwrap() }
+    }
+}
+
+#[derive(Clone, Debug)]
+enum Oov {
+    Simple { l: i128, r: i128, c: i128, p: Pos, allow: bool },
+    Regex { l: i128, r: i128, c: i128, p: Pos, allow: bool },
+    Mecab { lines: Vec<(usize, i128, i128, i128, Pos)>, allow: bool },
+}
+
+#[derive(Clone, Debug)]
+struct Case {
+    nl: i64,
+    nr: i64,
+    inhibit: Vec<Vec<(i128, i128)>>,
+    oov: Vec<Oov>,
+}
+
+fn czz(x: i128) -> String {
+    if x < 0 {
+        format!("({})%Z", x)
+    } else {
+        format!("{}%Z", x)
+    }
+}
+
+impl Case {
+    fn coq_cfg(&self) -> String {
+        let inh = clist(self.inhibit.iter().map(|ps| clist(ps.iter().map(|(a, b)| format!("({}, {})", czz(*a), czz(*b))))));
+        let oov = clist(self.oov.iter().map(|o| match o {
+            Oov::Simple { l, r, c, p, allow } => format!("Simple {} {} {} {} {}", czz(*l), czz(*r), czz(*c), p.coq(), cbool(*allow)),
+            Oov::Regex { l, r, c, p, allow } => format!("Regex {} {} {} {} {}", czz(*l), czz(*r), czz(*c), p.coq(), cbool(*allow)),
+            Oov::Mecab { lines, allow } => format!(
+                "Mecab {} {}",
+                clist(lines.iter().map(|(_, l, r, c, p)| format!("({}, {}, {}, {})", czz(*l), czz(*r), czz(*c), p.coq()))),
+                cbool(*allow)
+            ),
+        }));
+        format!("(mkCfg {} {})", inh, oov)
+    }
+    fn json(&self) -> Value {
+        let num = |x: &i128| Value::String(x.to_string());
+        json!({"kind": "c20", "nl": self.nl, "nr": self.nr,
+            "inhibit": self.inhibit.iter().map(|ps| ps.iter().map(|(a, b)| json!([num(a), num(b)])).collect::<Vec<_>>()).collect::<Vec<_>>(),
+            "oov": self.oov.iter().map(|o| match o {
+                Oov::Simple { l, r, c, p, allow } => json!({"t": "simple", "l": num(l), "r": num(r), "c": num(c), "p": p.json(), "allow": allow}),
+                Oov::Regex { l, r, c, p, allow } => json!({"t": "regex", "l": num(l), "r": num(r), "c": num(c), "p": p.json(), "allow": allow}),
+                Oov::Mecab { lines, allow } => json!({"t": "mecab", "allow": allow,
+                    "lines": lines.iter().map(|(k, l, r, c, p)| json!([k, num(l), num(r), num(c), p.json()])).collect::<Vec<_>>()}),
+            }).collect::<Vec<_>>()})
+    }
+    fn from_json(v: &Value) -> Case {
+        let num = |x: &Value| x.as_str().unwrap().parse::<i128>().unwrap();
+        Case {
+            nl: v["nl"].as_i64().unwrap(),
+            nr: v["nr"].as_i64().unwrap(),
+            inhibit: v["inhibit"].as_array().unwrap().iter().map(|ps| ps.as_array().unwrap().iter().map(|p| (num(&p[0]), num(&p[1]))).collect()).collect(),
+            oov: v["oov"]
+                .as_array()
+                .unwrap()
+                .iter()
+                .map(|o| match o["t"].as_str().unwrap() {
+                    "simple" => Oov::Simple { l: num(&o["l"]), r: num(&o["r"]), c: num(&o["c"]), p: Pos::from_json(&o["p"]), allow: o["allow"].as_bool().unwrap() },
+                    "regex" => Oov::Regex { l: num(&o["l"]), r: num(&o["r"]), c: num(&o["c"]), p: Pos::from_json(&o["p"]), allow: o["allow"].as_bool().unwrap() },
+                    _ => Oov::Mecab {
+                        allow: o["allow"].as_bool().unwrap(),
+                        lines: o["lines"].as_array().unwrap().iter().map(|l| (l[0].as_u64().unwrap() as usize, num(&l[1]), num(&l[2]), num(&l[3]), Pos::from_json(&l[4]))).collect(),
+                    },
+                })
+                .collect(),
+        }
+    }
+    /// the configuration as the JSON text handed to ConfigBuilder (numbers verbatim, so values beyond i64 can be written)
+    fn config_json(&self, dir: &Path, unk_files: &[String]) -> String {
+        let mut oov = vec![];
+        let mut k = 0;
+        for o in &self.oov {
+            match o {
+                Oov::Simple { l, r, c, p, allow } => oov.push(format!(
+                    "{{\"class\":\"com.worksap.nlp.sudachi.SimpleOovPlugin\",\"oovPOS\":{},\"leftId\":{},\"rightId\":{},\"cost\":{},\"userPOS\":\"{}\"}}",
+                    serde_json::to_string(&p.strings()).unwrap(), l, r, c, if *allow { "allow" } else { "forbid" }
+                )),
+                Oov::Regex { l, r, c, p, allow } => oov.push(format!(
+                    "{{\"class\":\"com.worksap.nlp.sudachi.RegexOovProvider\",\"regex\":\"[a-z0-9]+\",\"oovPOS\":{},\"leftId\":{},\"rightId\":{},\"cost\":{},\"userPOS\":\"{}\"}}",
+                    serde_json::to_string(&p.strings()).unwrap(), l, r, c, if *allow { "allow" } else { "forbid" }
+                )),
+                Oov::Mecab { allow, .. } => {
+                    oov.push(format!(
+                        "{{\"class\":\"com.worksap.nlp.sudachi.MeCabOovPlugin\",\"charDef\":\"char.def\",\"unkDef\":\"{}\",\"userPOS\":\"{}\"}}",
+                        unk_files[k], if *allow { "allow" } else { "forbid" }
+                    ));
+                    k += 1;
+                }
+            }
+        }
+        let inh: Vec<String> = self
+            .inhibit
+            .iter()
+            .map(|ps| {
+                format!(
+                    "{{\"class\":\"com.worksap.nlp.sudachi.InhibitConnectionPlugin\",\"inhibitPair\":[{}]}}",
+                    ps.iter().map(|(a, b)| format!("[{},{}]", a, b)).collect::<Vec<_>>().join(",")
+                )
+            })
+            .collect();
+        format!(
+            "{{\"path\":{},\"characterDefinitionFile\":\"char.def\",\"oovProviderPlugin\":[{}],\"connectionCostPlugin\":[{}]}}",
+            serde_json::to_string(&dir.to_string_lossy()).unwrap(),
+            oov.join(","),
+            inh.join(",")
+        )
+    }
+    /// independent oracle: what the property demands of an accepted configuration
+    fn valid(&self) -> bool {
+        let (nl, nr) = (self.nl as i128, self.nr as i128);
+        let lid = |x: i128| 0 <= x && x < nr;
+        let rid = |x: i128| 0 <= x && x < nl;
+        let cst = |x: i128| -32768 <= x && x <= 32767;
+        !self.oov.is_empty()
+            && self.oov.iter().all(|o| match o {
+                Oov::Simple { l, r, c, p, .. } | Oov::Regex { l, r, c, p, .. } => lid(*l) && rid(*r) && cst(*c) && p.arity_ok,
+                Oov::Mecab { lines, .. } => lines.iter().all(|(_, l, r, c, p)| lid(*l) && rid(*r) && cst(*c) && p.arity_ok),
+            })
+            && self.inhibit.iter().flatten().all(|(a, b)| rid(*a) && lid(*b))
+    }
+}
+
+struct Env {
+    dir: PathBuf,
+    dics: HashMap<(i64, i64), Vec<u8>>,
+    debug: bool,
+}
+
+impl Env {
+    fn new(work: &Path) -> Env {
+        let debug = cfg!(debug_assertions);
+        let dir = work.join(if debug { "c20_res_debug" } else { "c20_res_release" });
+        std::fs::create_dir_all(&dir).unwrap();
+        // char.def of the test resources + category properties for the classes the generated unk.def files use
+        let mut cd = std::fs::read_to_string(format!("{}/sudachi/tests/resources/char.def", repo())).unwrap();
+        cd.push_str("\nKANJI 0 0 2\nNUMERIC 1 1 0\nKATAKANA 1 1 2\nHIRAGANA 0 1 2\n");
+        std::fs::write(dir.join("char.def"), cd).unwrap();
+        Env { dir, dics: HashMap::new(), debug }
+    }
+    fn dictionary(&mut self, nl: i64, nr: i64) -> Vec<u8> {
+        if let Some(d) = self.dics.get(&(nl, nr)) {
+            return d.clone();
+        }
+        let mut m = format!("{} {}\n", nl, nr);
+        for r in 0..nr {
+            for l in 0..nl {
+                m.push_str(&format!("{} {} {}\n", l, r, init_cost(l, r)));
+            }
+        }
+        let lex = format!(
+            "京都,0,0,100,京都,{},キョウト,京都,*,A,*,*,*,*\nに,0,0,100,に,{},ニ,に,*,A,*,*,*,*\n行く,0,0,100,行く,{},イク,行く,*,A,*,*,*,*\n",
+            SYS_POS[0], SYS_POS[1], SYS_POS[2]
+        );
+        let mut b = DictBuilder::new_system();
+        b.read_conn(m.as_bytes()).expect("matrix");
+        b.read_lexicon(lex.as_bytes()).expect("lexicon");
+        b.resolve().expect("resolve");
+        let mut out = Vec::new();
+        b.compile(&mut out).expect("compile");
+        if self.dics.len() > 64 {
+            self.dics.clear();
+        }
+        self.dics.insert((nl, nr), out.clone());
+        out
+    }
+}
+
+struct Outcome {
+    status: &'static str,
+    msg: String,
+    nodes: Vec<Vec<(u16, u16, i16, u32)>>,
+    cells: Vec<(i64, i64, i64)>,
+    analysis_ok: bool,
+    analysis_msg: String,
+}
+
+fn run_impl(env: &mut Env, case: &Case) -> Outcome {
+    let bytes = env.dictionary(case.nl, case.nr);
+    let mut unk_files = vec![];
+    for (i, o) in case.oov.iter().enumerate() {
+        if let Oov::Mecab { lines, .. } = o {
+            let name = format!("unk_{}.def", i);
+            let mut t = String::from("# generated\n");
+            for (cat, l, r, c, p) in lines {
+                t.push_str(&format!("{},{},{},{},{}\n", CATS[*cat % CATS.len()], l, r, c, p.strings().join(",")));
+            }
+            std::fs::write(env.dir.join(&name), t).unwrap();
+            unk_files.push(name);
+        }
+    }
+    let cfg_text = case.config_json(&env.dir, &unk_files);
+    let cfg = ConfigBuilder::from_bytes(cfg_text.as_bytes()).expect("config json").build();
+    let mut out = Outcome { status: "SErr", msg: String::new(), nodes: vec![], cells: vec![], analysis_ok: true, analysis_msg: String::new() };
+    let loaded = catch(|| JapaneseDictionary::from_cfg_storage(&cfg, SudachiDicData::new(Storage::Owned(bytes))));
+    let dict = match loaded {
+        Err(p) => {
+            out.status = "SPanic";
+            out.msg = p;
+            return out;
+        }
+        Ok(Err(e)) => {
+            out.msg = format!("{}", e);
+            return out;
+        }
+        Ok(Ok(d)) => d,
+    };
+    out.status = "SOk";
+    let valid = case.valid();
+    // node templates handed out by every provider at every position of the probe text
+    let mut input = InputBuffer::from(PROBE);
+    input.build(dict.grammar()).unwrap();
+    let nchars = PROBE.chars().count();
+    for p in dict.oov_provider_plugins() {
+        let mut seen: Vec<(u16, u16, i16, u32)> = vec![];
+        for off in 0..nchars {
+            let mut v = vec![];
+            let _ = catch(|| p.provide_oov(&input, off, CreatedWords::empty(), &mut v));
+            for n in v {
+                let t = (n.left_id(), n.right_id(), n.cost(), n.word_id().word());
+                if !seen.contains(&t) {
+                    seen.push(t);
+                }
+            }
+        }
+        out.nodes.push(seen);
+    }
+    // matrix cells read back (only in-range arguments: anything else is undefined behaviour of the accessor)
+    let (nl, nr) = (case.nl, case.nr);
+    let mut want: Vec<(i64, i64)> = vec![];
+    if nl * nr <= 400 {
+        for r in 0..nr {
+            for l in 0..nl {
+                want.push((l, r));
+            }
+        }
+    } else {
+        want.push((0, 0));
+        want.push((nl - 1, nr - 1));
+        for (a, b) in case.inhibit.iter().flatten() {
+            let (ua, ub) = ((*a as i64) & 0xffff, (*b as i64) & 0xffff);
+            let idx = ub * nl + ua;
+            for i in [idx - 1, idx, idx + 1] {
+                if 0 <= i && i < nl * nr {
+                    want.push((i % nl, i / nl));
+                }
+            }
+            if 0 <= *a && (*a as i64) < nl && 0 <= *b && (*b as i64) < nr {
+                want.push((*a as i64, *b as i64));
+            }
+        }
+        want.sort();
+        want.dedup();
+    }
+    for (l, r) in want {
+        out.cells.push((l, r, dict.grammar().connect_cost(l as i16, r as i16) as i64));
+    }
+    // analysis of the probe text; in the release profile only when every accepted id is in range (otherwise the
+    // unchecked matrix read is undefined behaviour and could take the harness down)
+    if env.debug || valid {
+        let r = catch(|| {
+            let mut tok = StatefulTokenizer::new(&dict, Mode::C);
+            tok.reset().push_str(PROBE);
+            tok.do_tokenize().map(|_| ())
+        });
+        match r {
+            Ok(Ok(())) => {}
+            Ok(Err(e)) => {
+                // an error value (e.g. every path inhibited) is not a failure of C20
+                out.analysis_msg = format!("analysis error value: {}", e);
+            }
+            Err(p) => {
+                out.analysis_ok = false;
+                out.analysis_msg = format!("analysis panicked: {}", p);
+            }
+        }
+    }
+    out
+}
+
+fn emit(sink: &mut Sink, env: &mut Env, case: &Case, shape: &str, verbose: bool) {
+    let out = run_impl(env, case);
+    let nodes = clist(out.nodes.iter().map(|ns| clist(ns.iter().map(|(l, r, c, p)| format!("({}, {}, {}, {})", cz(*l as i64), cz(*r as i64), cz(*c as i64), cn(*p))))));
+    let cells = clist(out.cells.iter().map(|(l, r, v)| format!("({}, {}, {})", cz(*l), cz(*r), cz(*v))));
+    let term = format!(
+        "check_load {} (mkGram {} {} [0%N; 1%N; 2%N]) {} {} {} {} {}",
+        cbool(env.debug), cz(case.nl), cz(case.nr), case.coq_cfg(), out.status, nodes, cells, cbool(out.analysis_ok)
+    );
+    let valid = case.valid();
+    sink.tag(shape);
+    sink.tag(&format!("impl={}", out.status));
+    sink.tag(if case.nl == case.nr { "square" } else { "non_square" });
+    sink.tag(if valid { "cfg_valid" } else { "cfg_invalid" });
+    let mut d = case.json();
+    d["shape"] = json!(shape);
+    d["profile"] = json!(if env.debug { "debug" } else { "release" });
+    // non-trivial: some supplied value sits on or next to a dimension boundary, or the configuration is invalid
+    let near = |x: i128, d: i64| (x - d as i128).abs() <= 1;
+    let boundary = case.oov.iter().any(|o| match o {
+        Oov::Simple { l, r, .. } | Oov::Regex { l, r, .. } => near(*l, case.nr) || near(*r, case.nl),
+        Oov::Mecab { lines, .. } => lines.iter().any(|(_, l, r, _, _)| near(*l, case.nr) || near(*r, case.nl)),
+    }) || case.inhibit.iter().flatten().any(|(a, b)| near(*a, case.nl) || near(*b, case.nr));
+    let id = sink.case(term, d, boundary || !valid);
+    if verbose {
+        println!("configuration: {}", case.config_json(&env.dir, &(0..case.oov.len()).map(|i| format!("unk_{}.def", i)).collect::<Vec<_>>()));
+        println!("implementation: load {} {}", out.status, out.msg);
+        println!("  node templates per provider (left_id, right_id, cost, pos id): {:?}", out.nodes);
+        println!("  cells read back: {:?}", out.cells.iter().take(40).collect::<Vec<_>>());
+        println!("  analysis ok: {} {}", out.analysis_ok, out.analysis_msg);
+        println!("oracle: configuration valid = {}", valid);
+    }
+    // Rust-side oracle
+    if out.status == "SPanic" {
+        sink.fail(id, &format!("loading panicked instead of returning an error: {}", out.msg), "");
+    } else if out.status == "SOk" && !valid {
+        sink.fail(id, "configuration with an out-of-range connection id / cost / malformed POS was accepted", "");
+    } else if out.status == "SOk" {
+        if !out.analysis_ok {
+            sink.fail(id, &format!("accepted configuration, then {}", out.analysis_msg), "");
+        }
+        let named: Vec<(i64, i64)> = case.inhibit.iter().flatten().map(|(a, b)| (*a as i64, *b as i64)).collect();
+        for (l, r, v) in &out.cells {
+            let want = if named.contains(&(*l, *r)) { 32767 } else { init_cost(*l, *r) };
+            if *v != want {
+                sink.fail(id, &format!("cell ({}, {}) holds {} after loading, expected {}", l, r, v, want), "");
+                break;
+            }
+        }
+    }
+}
+
+fn grid(rng: &mut Rng, d: i64, other: i64) -> i128 {
+    let g: [i128; 17] = [
+        -1, 0, d as i128 - 1, d as i128, d as i128 + 1, other as i128 - 1, other as i128, other as i128 + 1,
+        32767, 32768, 65535, 65536, -32768, -32769, 65536 + d as i128 - 1, i64::MAX as i128, i64::MAX as i128 + 1,
+    ];
+    *rng.pick(&g)
+}
+fn good(rng: &mut Rng, d: i64) -> i128 {
+    match rng.below(3) {
+        0 => 0,
+        1 => d as i128 - 1,
+        _ => rng.below(d as u64) as i128,
+    }
+}
+fn cost_grid(rng: &mut Rng) -> i128 {
+    *rng.pick(&[-32769i128, -32768, -1, 0, 1, 32767, 32768, 65535, 65536, -65536])
+}
+fn good_cost(rng: &mut Rng) -> i128 {
+    *rng.pick(&[-32768i128, -100, 0, 5000, 32767])
+}
+fn gen_pos(rng: &mut Rng, bad: bool) -> (Pos, bool) {
+    // (pos, allow): bad => absent + forbid, or wrong arity
+    if bad {
+        if rng.chance(1, 2) {
+            (Pos { arity_ok: true, key: 100 + rng.below(3) }, false)
+        } else {
+            (Pos { arity_ok: false, key: rng.below(3) }, rng.chance(1, 2))
+        }
+    } else {
+        match rng.below(3) {
+            0 => (Pos { arity_ok: true, key: rng.below(3) }, false),
+            1 => (Pos { arity_ok: true, key: rng.below(3) }, true),
+            _ => (Pos { arity_ok: true, key: 100 + rng.below(3) }, true),
+        }
+    }
+}
+fn dims(rng: &mut Rng, allow_big: bool) -> (i64, i64) {
+    let small = [1i64, 2, 3, 4, 5, 10];
+    if allow_big && rng.chance(1, 60) {
+        return *rng.pick(&[(32767i64, 1i64), (1, 32767), (32767, 2), (300, 2), (2, 300)]);
+    }
+    let nl = *rng.pick(&small);
+    let nr = if rng.chance(1, 2) { nl } else { *rng.pick(&small) };
+    (nl, nr)
+}
+
+/// one provider whose field number `bad` (0 none, 1 left, 2 right, 3 cost, 4 pos) is taken from the boundary grid
+fn gen_oov(rng: &mut Rng, kind: u64, nl: i64, nr: i64, bad: u64) -> Oov {
+    let l = if bad == 1 { grid(rng, nr, nl) } else { good(rng, nr) };
+    let r = if bad == 2 { grid(rng, nl, nr) } else { good(rng, nl) };
+    let c = if bad == 3 { cost_grid(rng) } else { good_cost(rng) };
+    let (p, allow) = gen_pos(rng, bad == 4);
+    match kind {
+        0 => Oov::Simple { l, r, c, p, allow },
+        1 => Oov::Regex { l, r, c, p, allow },
+        _ => {
+            let n = 1 + rng.below(4) as usize;
+            let badline = rng.below(n as u64) as usize;
+            let mut lines = vec![];
+            for i in 0..n {
+                let cat = rng.below(CATS.len() as u64) as usize;
+                if i == badline {
+                    lines.push((cat, l, r, c, p.clone()));
+                } else {
+                    let (p2, _) = gen_pos(rng, false);
+                    let p2 = if allow { p2 } else { Pos { arity_ok: true, key: rng.below(3) } };
+                    lines.push((cat, good(rng, nr), good(rng, nl), good_cost(rng), p2));
+                }
+            }
+            Oov::Mecab { lines, allow }
+        }
+    }
+}
+
+fn baseline_oov() -> Oov {
+    Oov::Simple { l: 0, r: 0, c: 3000, p: Pos { arity_ok: true, key: 0 }, allow: false }
+}
+
+pub fn run(args: &Args) {
+    let mut sink = Sink::new("C20", &args.out, &["Model.GuardLang", "Model.Params"], args.seed, &args.tier);
+    sink.rule("dictionaries with nl x nr matrices (1..10 square and non-square, a few 32767-sized) x configurations of SimpleOovPlugin / RegexOovProvider / MeCabOovPlugin(unk.def) / InhibitConnectionPlugin where one field (leftId, rightId, cost, POS, pair member) is drawn from the boundary grid {-1,0,d-1,d,d+1,other dim-1..+1,32767,32768,65535,65536,+-i16 ends,i64 max(+1)}; POS present/absent x userPOS allow/forbid x wrong arity; non-trivial = a supplied id within 1 of a dimension or configuration invalid; distinct by generated Coq term");
+    let mut env = Env::new(&args.work);
+    if let Some(p) = &args.replay {
+        let v: Value = serde_json::from_str(&std::fs::read_to_string(p).unwrap()).unwrap();
+        let case = Case::from_json(&v["case"]);
+        println!("replaying C20 case on a {}x{} matrix, profile {}", case.nl, case.nr, if env.debug { "debug" } else { "release" });
+        emit(&mut sink, &mut env, &case, "replay", true);
+        sink.finish();
+        return;
+    }
+    let mut rng = Rng::new(args.seed);
+    // ---- directed cases first: the defects of the pinned tree and their neighbours
+    let p0 = Pos { arity_ok: true, key: 0 };
+    for (nl, nr) in [(10i64, 10i64), (3, 2), (2, 3), (1, 1)] {
+        for (l, r) in [(nr as i128, 0i128), (0, nl as i128), (nr as i128 - 1, nl as i128 - 1), (nl as i128 - 1, nr as i128 - 1), (-1, 0), (0, -1), (65536, 0)] {
+            emit(&mut sink, &mut env, &Case { nl, nr, inhibit: vec![], oov: vec![Oov::Simple { l, r, c: 0, p: p0.clone(), allow: false }] }, "directed_simple", false);
+            emit(&mut sink, &mut env, &Case { nl, nr, inhibit: vec![], oov: vec![Oov::Regex { l, r, c: 0, p: p0.clone(), allow: false }] }, "directed_regex", false);
+            emit(&mut sink, &mut env, &Case { nl, nr, inhibit: vec![], oov: vec![baseline_oov(), Oov::Mecab { lines: vec![(1, l, r, 0, p0.clone())], allow: false }] }, "directed_unk", false);
+        }
+        for (a, b) in [(nl as i128, 0i128), (0, nr as i128), (nl as i128 - 1, nr as i128 - 1), (nr as i128 - 1, nl as i128 - 1), (-1, 0), (0, -1), (32768, 0), (0, 0)] {
+            emit(&mut sink, &mut env, &Case { nl, nr, inhibit: vec![vec![(a, b)]], oov: vec![baseline_oov()] }, "directed_inhibit", false);
+        }
+    }
+    emit(&mut sink, &mut env, &Case { nl: 32767, nr: 3, inhibit: vec![vec![(-1, 0)]], oov: vec![baseline_oov()] }, "directed_inhibit_wrap_big", false);
+    emit(&mut sink, &mut env, &Case { nl: 3, nr: 3, inhibit: vec![], oov: vec![] }, "no_oov_provider", false);
+    // ---- structured stream
+    let n = args.n(700, 12000);
+    for _ in 0..n {
+        let (nl, nr) = dims(&mut rng, true);
+        let what = rng.below(10);
+        let mut case = Case { nl, nr, inhibit: vec![], oov: vec![] };
+        let shape;
+        if what < 6 {
+            // OOV provider under test
+            let kind = rng.below(3);
+            let bad = if rng.chance(1, 4) { 0 } else { 1 + rng.below(4) };
+            if kind == 2 || rng.chance(1, 3) {
+                case.oov.push(baseline_oov());
+            }
+            case.oov.push(gen_oov(&mut rng, kind, nl, nr, bad));
+            if rng.chance(1, 5) {
+                let k2 = rng.below(3);
+                case.oov.push(gen_oov(&mut rng, k2, nl, nr, 0));
+            }
+            shape = format!("{}_{}", ["simple", "regex", "unk"][kind as usize], ["all_good", "left_grid", "right_grid", "cost_grid", "pos_bad"][bad as usize]);
+        } else {
+            case.oov.push(baseline_oov());
+            let ninst = 1 + rng.below(2) as usize;
+            let bad = !rng.chance(1, 4);
+            let bad_inst = rng.below(ninst as u64) as usize;
+            for i in 0..ninst {
+                let np = rng.below(4) as usize + if i == bad_inst { 1 } else { 0 };
+                let bad_pair = rng.below(np.max(1) as u64) as usize;
+                let mut ps = vec![];
+                for j in 0..np {
+                    if bad && i == bad_inst && j == bad_pair {
+                        if rng.chance(1, 2) {
+                            ps.push((grid(&mut rng, nl, nr), good(&mut rng, nr)));
+                        } else {
+                            ps.push((good(&mut rng, nl), grid(&mut rng, nr, nl)));
+                        }
+                    } else {
+                        ps.push((good(&mut rng, nl), good(&mut rng, nr)));
+                    }
+                }
+                case.inhibit.push(ps);
+            }
+            shape = if bad { "inhibit_member_grid".to_string() } else { "inhibit_all_good".to_string() };
+        }
+        emit(&mut sink, &mut env, &case, &shape, false);
+    }
+    // ---- malformed stream: several fields off at once
+    for _ in 0..args.n(150, 2000) {
+        let (nl, nr) = dims(&mut rng, false);
+        let mut case = Case { nl, nr, inhibit: vec![], oov: vec![] };
+        for _ in 0..(1 + rng.below(2)) {
+            let kind = rng.below(3);
+            let l = grid(&mut rng, nr, nl);
+            let r = grid(&mut rng, nl, nr);
+            let c = cost_grid(&mut rng);
+            let badpos = rng.chance(1, 2);
+            let (p, allow) = gen_pos(&mut rng, badpos);
+            case.oov.push(match kind {
+                0 => Oov::Simple { l, r, c, p, allow },
+                1 => Oov::Regex { l, r, c, p, allow },
+                _ => Oov::Mecab { lines: vec![(rng.below(6) as usize, l, r, c, p)], allow },
+            });
+        }
+        if rng.chance(1, 2) {
+            case.inhibit.push(vec![(grid(&mut rng, nl, nr), grid(&mut rng, nr, nl))]);
+        }
+        emit(&mut sink, &mut env, &case, "malformed_multi", false);
+    }
+    sink.finish();
 }
